@@ -311,6 +311,49 @@ impl Dependencies for Function {
     fn dependencies(&self) -> Vec<Dependency> {
         self.body.net_dependencies()
     }
+
+    /// `modify x = ..` in the body of this function addresses a variable of an enclosing scope
+    /// whatever the parameters of this function are called, so a parameter `x` does not supply it:
+    /// the function has to capture `x`. For whoever creates this function that is a plain use of
+    /// `x`, which a parameter or a variable of theirs supplies like any other.
+    fn net_dependencies(&self) -> Vec<Dependency> {
+        let supplies = self.supplies();
+
+        let mut result = vec![];
+
+        'dependency_loop: for dependency in self.dependencies() {
+            let modified_here = match dependency.ident.ty() {
+                Ok(ty) => match ty.as_ref() {
+                    TypeLayout::CallbackVariable(inner) => Some(inner.as_ref().clone()),
+                    _ => None,
+                },
+                Err(..) => None,
+            };
+
+            if let Some(inner) = modified_here {
+                let mut ident = dependency.ident.into_owned();
+                ident.set_type_no_link(Cow::Owned(inner));
+                result.push(Dependency {
+                    ident: Cow::Owned(ident),
+                    cycles_needed: dependency.cycles_needed,
+                });
+                continue;
+            }
+
+            for supplied in &supplies {
+                if supplied
+                    .eq_allow_callbacks(&dependency)
+                    .expect("idents do not have types")
+                {
+                    continue 'dependency_loop;
+                }
+            }
+
+            result.push(dependency);
+        }
+
+        result
+    }
 }
 
 impl Function {
